@@ -1,6 +1,8 @@
 package sweepsim
 
 import (
+	"strconv"
+	"regexp"
 	"bytes"
 	"errors"
 	"fmt"
@@ -482,7 +484,35 @@ func (w *World) onResult(q *simReq, res *sweep.BumpResult) {
 					w.height, res.Err, q.startRate, ceilLo, q.budgetSum, a.wAct, a.wNorm, sig)
 			}
 		}
+		// Requests WITH required outputs: a change output below dust is
+		// donated to the fee, so the fee may legitimately exceed the budget -
+		// by less than the largest dust limit of any change script (546 sat).
+		// lnd states budget and fee in the error; an overshoot beyond that
+		// bound means the ramp's ceiling was computed for a smaller
+		// transaction than the one that is built (the ceiling is budget over
+		// size: size must count the required outputs).
+		if res.Event == sweep.TxFailed && errors.Is(res.Err, sweep.ErrNotEnoughBudget) && q.hasRequired {
+			if m := budgetFeeRe.FindStringSubmatch(res.Err.Error()); m != nil {
+				b := int64(mustFloat(m[1])*1e8 + 0.5)
+				f := int64(mustFloat(m[2])*1e8 + 0.5)
+				// only while a ramp is under way (an earlier attempt of this
+				// request fitted the budget, so its start was within the
+				// ceiling)
+				if b == q.budgetSum && f-b > 546 && len(q.attempts) > 0 {
+					w.violateSig(q, "budget-overshoot", "required-outputs", "request with required outputs failed at height %d with %v: the fee the ramp asked for exceeds the budget by %d sat, more than any sub-dust change (at most 546 sat) can explain - the ceiling budget/size was computed for a smaller transaction than the one built",
+						w.height, res.Err, f-b)
+				}
+				w.r.Count("required_output_budget_failures_examined")
+			}
+		}
 	}
+}
+
+var budgetFeeRe = regexp.MustCompile(`budget=([0-9.]+) BTC, fee=([0-9.]+) BTC`)
+
+func mustFloat(s string) float64 {
+	f, _ := strconv.ParseFloat(s, 64)
+	return f
 }
 
 // ---- restart ---------------------------------------------------------------
